@@ -203,17 +203,18 @@ struct Box {
       }
       EI it;
       bool found;
-      bool byData = guide && guide->r0 && !guide->nr1;
-      if (byData)
-        found = pick(a, b, mf, true, guide->r1, it);
-      else if (op.kind == K_REMOVE_FIND || bare || guide) {
+      if (op.kind == K_REMOVE_FIND || bare || (guide && guide->nr1)) {
         it    = g.findEdge(a, b, mf);
         found = it != g.edge_end(a, mf);
       } else
         found = pick(a, b, mf, false, 0, it);
-      if (byData && !found) {
-        r.bad = B_GUIDE_MISSING;
-        break;
+      // serial replay: the API made another (equally legal) choice among parallel edges than in the recorded run
+      if (guide && guide->r0 && !guide->nr1 && !(found && g.getEdgeData(it) == guide->r1)) {
+        found = pick(a, b, mf, true, guide->r1, it);
+        if (!found) {
+          r.bad = B_GUIDE_MISSING;
+          break;
+        }
       }
       if (found) {
         if (g.getEdgeDst(it) != b)
@@ -226,17 +227,14 @@ struct Box {
     }
     case K_REMOVE_VIA_IN: { // at a: remove the edge b->a (undirected: the edge {a,b})
       if constexpr (kUndirected) {
-        EI it;
-        bool found;
-        if (guide && guide->r0)
+        EI it      = g.findInEdge(a, b, mf);
+        bool found = it != g.in_edge_end(a, mf);
+        if (guide && guide->r0 && !(found && g.getEdgeData(it) == guide->r1)) {
           found = pick(a, b, mf, true, guide->r1, it);
-        else {
-          it    = g.findInEdge(a, b, mf);
-          found = it != g.in_edge_end(a, mf);
-        }
-        if (guide && guide->r0 && !found) {
-          r.bad = B_GUIDE_MISSING;
-          break;
+          if (!found) {
+            r.bad = B_GUIDE_MISSING;
+            break;
+          }
         }
         if (found) {
           if (g.getEdgeDst(it) != b)
@@ -246,9 +244,10 @@ struct Box {
           g.removeEdge(a, it, mf);
         }
       } else if constexpr (kSep && kInOut) {
-        auto it    = g.in_edge_end(a, mf);
-        bool found = false;
-        if (guide && guide->r0) {
+        auto it    = findIn(a, b, mf);
+        bool found = it != g.in_edge_end(a, mf);
+        if (guide && guide->r0 && !(found && g.getEdgeData(it) == guide->r1)) {
+          found = false;
           for (auto jt = g.in_edge_begin(a, mf), e = g.in_edge_end(a, mf); jt != e; ++jt)
             if (g.getEdgeDst(jt) == b && g.getEdgeData(jt) == guide->r1) {
               it    = jt;
@@ -259,9 +258,6 @@ struct Box {
             r.bad = B_GUIDE_MISSING;
             break;
           }
-        } else {
-          it    = findIn(a, b, mf);
-          found = it != g.in_edge_end(a, mf);
         }
         if (found) {
           if (g.getEdgeDst(it) != b)
@@ -304,16 +300,17 @@ struct Box {
     case K_UPDATE_EDGE: {
       EI it;
       bool found;
-      if (guide && guide->r0)
-        found = pick(a, b, mf, true, guide->r1, it);
-      else if (bare) {
+      if (bare) {
         it    = g.findEdge(a, b, mf);
         found = it != g.edge_end(a, mf);
       } else
         found = pick(a, b, mf, false, 0, it);
-      if (guide && guide->r0 && !found) {
-        r.bad = B_GUIDE_MISSING;
-        break;
+      if (guide && guide->r0 && !(found && g.getEdgeData(it) == guide->r1)) {
+        found = pick(a, b, mf, true, guide->r1, it);
+        if (!found) {
+          r.bad = B_GUIDE_MISSING;
+          break;
+        }
       }
       if (found) {
         r.r0              = 1;
@@ -324,9 +321,10 @@ struct Box {
     }
     case K_UPDATE_EDGE_IN: {
       if constexpr (kUndirected || kInOut) {
-        auto it    = g.in_edge_end(a, mf);
-        bool found = false;
-        if (guide && guide->r0) {
+        auto it    = findIn(a, b, mf);
+        bool found = it != g.in_edge_end(a, mf);
+        if (guide && guide->r0 && !(found && g.getEdgeData(it) == guide->r1)) {
+          found = false;
           for (auto jt = g.in_edge_begin(a, galois::MethodFlag::UNPROTECTED), e = g.in_edge_end(a, mf); jt != e; ++jt)
             if (g.getEdgeDst(jt) == b && g.getEdgeData(jt) == guide->r1) {
               it    = jt;
@@ -337,9 +335,6 @@ struct Box {
             r.bad = B_GUIDE_MISSING;
             break;
           }
-        } else {
-          it    = findIn(a, b, mf);
-          found = it != g.in_edge_end(a, mf);
         }
         if (found) {
           if (g.getEdgeDst(it) != b)
@@ -609,7 +604,9 @@ struct Runner {
   }
 
   std::string key(const std::string& kind) const { return std::string("C10:") + fl.family + ":" + kind; }
-  // config-class suffix of keys raised by loop-level oracles
+  // Keys of loop-level oracles. Case classes in which a (sequential) removeEdge defect can apply — parallel edges on
+  // a graph with reverse entries, self-loops — get one collapsed key per class: while such a defect is open the
+  // individual oracles cannot be told apart there. All other classes keep one key per oracle.
   std::string cls() const {
     std::string s;
     if (spec.multiEdges && tracksReverse(FL))
@@ -617,6 +614,10 @@ struct Runner {
     if (spec.selfLoops)
       s += ":self-loop";
     return s;
+  }
+  std::string loopKey(const std::string& kind) const {
+    std::string c = cls();
+    return c.empty() ? key(kind) : key("loop-check-failed") + c;
   }
 
   galois::runtime::Lockable* lockFor(uint32_t lid) {
@@ -724,19 +725,19 @@ struct Runner {
       m.apply(op, Res(), err);
   }
 
-  void reportProblems(const std::vector<typename B::Problem>& probs, const std::string& where, const std::string& suffix) {
+  void reportProblems(const std::vector<typename B::Problem>& probs, const std::string& where) {
     for (auto& p : probs)
-      out.add(key(p.kind) + suffix, J().kv("where", where).kv("what", p.detail).kv("flavour", fl.name).str());
+      out.add(loopKey(p.kind), J().kv("check", p.kind).kv("where", where).kv("what", p.detail).kv("flavour", fl.name).str());
   }
 
   // Attributed failure kind for a divergence that appears right after `op` in a serial execution.
   std::string attributed(const Op& op, size_t parallelBefore, const std::string& generic) {
     if (isRemoveEdge(op.kind)) {
       uint32_t s = isInView(op.kind) ? op.b : op.a, t = isInView(op.kind) ? op.a : op.b;
-      if (s == t)
-        return "removeEdge-self-loop-corrupts-adjacency";
       if (parallelBefore > 1 && tracksReverse(FL))
         return "removeEdge-multi-edge-unshares-data";
+      if (s == t)
+        return "removeEdge-self-loop-corrupts-adjacency";
     }
     return generic + ":" + kindName(op.kind);
   }
@@ -745,7 +746,14 @@ struct Runner {
   // guides (optional) = recorded results of the concurrent run, compared too. Returns false at the first
   // divergence (reported with an attributed key).
   bool serialStepwise(const std::vector<Op>& ops, const std::vector<Res>* guides, const char* where) {
-    B bx(spec.nTotal);
+    // A graph on which a divergence was seen may be internally corrupt (its destructor could crash): it is leaked.
+    B* bxp = new B(spec.nTotal);
+    bool ok = serialStepwiseOn(*bxp, ops, guides, where);
+    if (ok)
+      delete bxp;
+    return ok;
+  }
+  bool serialStepwiseOn(B& bx, const std::vector<Op>& ops, const std::vector<Res>* guides, const char* where) {
     Model m;
     initGraph(bx, false);
     initModel(m);
@@ -854,7 +862,16 @@ struct Runner {
   }
 
   void runLoop() {
-    B bx(spec.nTotal);
+    B* bxp = new B(spec.nTotal);
+    B* rbp = new B(spec.nTotal);
+    runLoopOn(*bxp, *rbp);
+    conc = nullptr;
+    if (out.viols.empty()) { // graphs involved in a violation may be internally corrupt: leaked, not destroyed
+      delete bxp;
+      delete rbp;
+    }
+  }
+  void runLoopOn(B& bx, B& rb) {
     conc = &bx;
     galois::setActiveThreads(spec.threads);
     initGraph(bx, spec.parallelInit);
@@ -893,7 +910,7 @@ struct Runner {
         if (!d)
           lost++;
       if (dup || lost)
-        out.add(key("loop-items-not-committed-exactly-once"), J().kv("lost", lost).kv("duplicated", dup).kv("flavour", fl.name).str());
+        out.add(loopKey("loop-items-not-committed-exactly-once"), J().kv("lost", lost).kv("duplicated", dup).kv("flavour", fl.name).str());
     }
 
     // ---- nothing left owned
@@ -909,7 +926,7 @@ struct Runner {
           out.locksChecked++;
         }
         if (bad) {
-          out.add(key("node-left-owned-after-loop"), J().kv("node", l).kv("flavour", fl.name).str());
+          out.add(loopKey("node-left-owned-after-loop"), J().kv("check", "node-left-owned-after-loop").kv("node", l).kv("flavour", fl.name).str());
           break;
         }
       }
@@ -918,7 +935,7 @@ struct Runner {
       for (unsigned p = 0; p < spec.parts; ++p) {
         out.locksChecked++;
         if (Probe::ownerOf(&parts[p]) != nullptr || !probe.isFree(&parts[p])) {
-          out.add(key("node-left-owned-after-loop"), J().kv("partition", p).kv("flavour", fl.name).str());
+          out.add(loopKey("node-left-owned-after-loop"), J().kv("check", "node-left-owned-after-loop").kv("partition", p).kv("flavour", fl.name).str());
           break;
         }
       }
@@ -943,11 +960,11 @@ struct Runner {
       }
     }
     countOps(ops);
-    B rb(spec.nTotal);
     Model m;
     initGraph(rb, false);
     initModel(m);
     std::string firstResultDiff, firstModelDiff, firstBad;
+    bool guideMissing = false; // a recorded result that no serial execution can reproduce
     for (size_t i = 0; i < ops.size(); ++i) {
       const Res& rec = recs[i];
       if (rec.st)
@@ -965,6 +982,8 @@ struct Runner {
       Res rr;
       rb.apply(ops[i], rr, &rec, galois::MethodFlag::WRITE, false);
       out.replayOps++;
+      if (rr.bad == B_GUIDE_MISSING && rec.bad != B_GUIDE_MISSING)
+        guideMissing = true;
       // which parallel edge findEdge returns is not specified: r1 of find-style queries is judged by the model only
       bool choiceKind = ops[i].kind == K_FIND || ops[i].kind == K_FIND_IN || ops[i].kind == K_ADD_EDGE;
       if (firstResultDiff.empty() &&
@@ -984,29 +1003,30 @@ struct Runner {
 
     // Is the *serial* execution of the real code already inconsistent (sequential defect)? Then attribute it
     // with the stepwise executor and do not judge serialisability of this case.
-    bool serialBroken = !ps.empty() || !(ds == dm);
+    bool serialBroken = !guideMissing && (!ps.empty() || !(ds == dm));
     if (serialBroken) {
       out.tainted = true;
       bool ok     = serialStepwise(ops, &recs, "serial replay of the committed operations");
-      if (ok) // not reproduced stepwise (should not happen): report generically
-        out.add(key("serial-replay-differs-from-model") + cls(),
-                J().kv("what", ps.empty() ? ds.diff(dm, "serial-replay", "model") : ps[0].detail).kv("flavour", fl.name).str());
-      // the concurrently mutated graph usually shows the same defect; report its invariants under the class suffix
-      reportProblems(pc, "graph after the loop (serial replay shows a sequential defect too)", cls());
+      if (ok) // not reproduced stepwise: report generically
+        out.add(loopKey("serial-replay-differs-from-model"),
+                J().kv("check", "serial-replay-differs-from-model")
+                    .kv("what", ps.empty() ? ds.diff(dm, "serial-replay", "model") : ps[0].detail).kv("flavour", fl.name).str());
       return;
     }
-    reportProblems(pc, "graph after the loop", cls());
+    reportProblems(pc, "graph after the loop");
     if (!firstBad.empty())
-      out.add(key("api-inconsistency-in-loop") + cls(), J().kv("what", firstBad).kv("flavour", fl.name).str());
+      out.add(loopKey("api-inconsistency-in-loop"), J().kv("check", "api-inconsistency-in-loop").kv("what", firstBad).kv("flavour", fl.name).str());
     if (!(dc == ds) || !firstResultDiff.empty())
-      out.add(key("not-serializable") + cls(),
-              J().kv("what", "graph after the loop differs from the serial execution of the committed operations in ticket order")
+      out.add(loopKey("not-serializable"),
+              J().kv("check", "not-serializable")
+                  .kv("what", "graph after the loop differs from the serial execution of the committed operations in ticket order")
                   .kv("dump_diff", dc == ds ? std::string("-") : dc.diff(ds, "loop", "serial-replay"))
                   .kv("first_result_diff", firstResultDiff).kv("threads", spec.threads).kv("commits", (uint64_t)commits.size())
                   .kv("flavour", fl.name).str());
     if (!(dc == dm) || !firstModelDiff.empty())
-      out.add(key("differs-from-model") + cls(),
-              J().kv("what", "graph after the loop / recorded results differ from the model replay in ticket order")
+      out.add(loopKey("differs-from-model"),
+              J().kv("check", "differs-from-model")
+                  .kv("what", "graph after the loop / recorded results differ from the model replay in ticket order")
                   .kv("dump_diff", dc == dm ? std::string("-") : dc.diff(dm, "loop", "model")).kv("first_result_diff", firstModelDiff)
                   .kv("threads", spec.threads).kv("commits", (uint64_t)commits.size()).kv("flavour", fl.name).str());
   }
